@@ -81,7 +81,38 @@ func NewLevelListFromDocument(fs storage.FileSystem, dataOwnership kv.DataOwners
 }
 
 func (ll *LevelList) Get(key []byte) (kv.Entry, error) {
-	for t := range ll.AllTablesForKey(key) {
+	// Level 0 tables overlap each other and are iterated oldest first, so every
+	// candidate has to be checked and the version with the highest sequence
+	// number wins.
+	var newest kv.Entry
+	for t := range ll.At(0).AllTables() {
+		if !t.RangeContainsKey(key) {
+			continue
+		}
+		v, err := t.Get(key)
+		if err != nil {
+			if err == kv.ErrNotFound {
+				continue
+			}
+			return nil, fmt.Errorf("table %#v, %w", t, err)
+		}
+		if newest == nil || v.SeqNum() > newest.SeqNum() {
+			newest = v
+		}
+	}
+	if newest != nil {
+		return newest, nil
+	}
+
+	// Each deeper level is one sorted run and lower levels hold newer data, so
+	// the first hit is the newest version.
+	for level := range ll.DescendLevels(1) {
+		levelTables := level.tables.Slice()
+		foundIndex, ok := sliceu.SearchUnique(levelTables, key, (*Table).RangeKeyCompare)
+		if !ok {
+			continue
+		}
+		t := levelTables[foundIndex]
 		v, err := t.Get(key)
 		if err != nil {
 			if err == kv.ErrNotFound {
